@@ -103,6 +103,7 @@ class Module:
                 lab = m.group(1).strip('"'); cur.blocks[lab] = []; cur.order.append(lab); continue
             if lab is None:
                 lab = "%entry0"; cur.blocks[lab] = []; cur.order.append(lab)
+            if s == "cleanup" or s.startswith("catch ") or s.startswith("filter "): continue     # landingpad clauses
             if cont is not None:
                 cont += " " + s
                 if s.startswith("]") or s.startswith("to label"):
@@ -367,12 +368,14 @@ def parse_instr(s, comment=None):
         vol = "volatile" in s.split("load", 1)[1][:12]
         parts = strip_meta(rest)
         ty = parts[0]; pt, pv = take_type(parts[1])
+        pv = re.sub(r'\s+(syncscope\("[^"]*"\)\s+)?(unordered|monotonic|acquire|release|acq_rel|seq_cst)$', '', pv.strip())
         return ("load", dst, ty, parse_operand(pv), vol)
     if op == "store":
         vol = rest.startswith("volatile")
         rest = re.sub(r'^(atomic\s+)?(volatile\s+)?', '', rest)
         parts = strip_meta(rest)
         ty, v = take_type(parts[0]); pt, pv = take_type(parts[1])
+        pv = re.sub(r'\s+(syncscope\("[^"]*"\)\s+)?(unordered|monotonic|acquire|release|acq_rel|seq_cst)$', '', pv.strip())
         return ("store", None, ty, parse_operand(v, ty), parse_operand(pv), vol)
     if op == "getelementptr":
         while True:
